@@ -100,6 +100,17 @@ CHECKS["C07"] = dict(
     note="Trusted: TLC, virtual loop with scripted ranks, queue wrapper, harness classification of datagrams. 'A few polling intervals' = 3 polls + 12 ms.",
     design="§4 C07")
 
+CHECKS["C08"] = dict(
+    technique="Lifecycle.tla (frames per task, running token, budgeted client-handler suspension, known findings as named flags) model-checked by TLC + TLC trace validation of real manager executions with every non-delivery step inferred (Lifecycle_Trace)",
+    text="The _handle_event switch, pump, locate/connect brackets with finally, non-atomic reset, ping/runtime events and context exit are transcribed frame by frame; TLC runs the bounded configurations (without and with suspension) to closure and checks ConnectedSound, ReadyIffEnterConnected, TeardownBracket, BracketsSane/ClosedAtExit, SensorMirrorsState and ResetLandsIdle in the form 'or the behaviour took a listed known-finding transition'. The real GeckoAsyncSpaMan runs on the virtual loop against the real simulator through blackout, lossy and RF-error phases (idle and active configuration), resets at enumerated points of discovery/handshake/steady/error states, suspended client handlers and context exit; every handle_event delivery with sampled state, facade, spa, descriptors, status-sensor text and delivering task plus the harness's actions is validated by TLC against the specification, invariants evaluated on every state of the matched behaviour.",
+    note="Trusted: TLC, virtual loop, the simulator, mapping of task names to model tasks (epoch = connection attempts started before the task was created). Request outcomes are not tied to the network mode in trace mode. Known finding D10 (reset overtaken during a suspended handler); D8 and D18 were found and fixed.",
+    design="§4 C08")
+CHECKS["C09"] = dict(
+    technique="Lifecycle.tla safety (PumpAlive) and liveness (Quiet ~> CONNECTED under strong fairness, thorough tier) by TLC + TLC trace validation of real fault/reset scenarios + measured recovery/out-of-service times judged by TLC against bounds from the live configuration (C09_Judge)",
+    text="Same specification and runs as C08 with the emphasis on recovery: after the script's last fault (blackouts from 3 s to 400 s at discovery/handshake/steady state, lossy and RF-error phases, resets at every enumerated point of a connection attempt, seeded mixtures) the run continues for a bound derived from the configured timeouts and must be CONNECTED with the pump task alive and a client block equal to the simulator's; a long blackout in steady state must take the manager out of CONNECTED within its bound. The logs are validated against Lifecycle_Trace; the measured times are judged by TLC.",
+    note="Trusted as C08. Known findings: D9 (ERROR_SPA_NOT_FOUND is terminal) and D10; D8 (pump dies on reset while connecting) and D18 (stranded in SPA_READY) were fixed. Liveness under fairness is checked on the model only (thorough tier, outer timeout).",
+    design="§4 C09")
+
 NOT_YET = {}
 
 
